@@ -10,10 +10,11 @@ from .. import tlc
 from ..util import as_list, tmp_dir
 
 IMPORTS = ('phylib.utils._misc',)
-FLOATS = {'f05': 0.5, 'fm25': -2.5, 'f15': 1.5, 'f123456': 1.23456}
+FLOATS = {'f05': 0.5, 'fm25': -2.5, 'f15': 1.5, 'f123456': 1.23456, 'f3em5': 3.2e-05}    # (repr of 3.2e-05 has an exponent)
 STRINGS = {'abc': 'abc', 'd12': 'd12', '': '', 'name': 'name', 'n12x': 'n12x', 'x': 'x', 'y': 'y',
            'good': 'good', 'has_comma': 'a,b', 'has_tab': 'a\tb', 'has_quote': 'say "hi", ok',
-           'has_space': ' two words ', 'e5x': '1e5x', 'plusnum': ' +1_0 '}
+           'has_space': ' two words ', 'e5x': '1e5x', 'plusnum': ' +1_0 ',
+           'has_newline': 'first line\nsecond line', 'has_vt': 'a\x0bb \u2028c'}
 RSTRINGS = {v: k for k, v in STRINGS.items()}
 BIGINTS = {'b53p1': 2 ** 53 + 1}          # integers beyond 2^53 (tokens: TLC's integers are 32-bit)
 RBIGINTS = {v: k for k, v in BIGINTS.items()}
@@ -224,7 +225,7 @@ def _rand_value(rng, depth):
                     vs=[_rand_value(rng, depth - 1) for _ in ks])
     if u < 0.7:
         dt = ['int8', 'int16', 'int32', 'int64', 'uint8', 'uint16', 'uint32', 'uint64', 'float32',
-              'float64', 'bool'][rng.randint(11)]
+              'float64', 'bool', '>i2', '>f4'][rng.randint(13)]       # (the last two: non-native byte order)
         rank = int(rng.randint(0, 4))
         shape = [int(x) for x in rng.randint(0, 13, size=rank)]
         if int(np.prod(shape)) > 60:
@@ -243,7 +244,7 @@ def _random_records(ctx, d, count):
     rng = np.random.RandomState(ctx.seed + 18)
     cells = ([dict(c='int', i=3), dict(c='int', i=-2), dict(c='int', i=123456789), dict(c='bigint', s='b53p1')] +
              [dict(c='float', f=f) for f in ('f15', 'f123456', 'f05')] +
-             [dict(c='str', s=s) for s in ('good', 'has_comma', 'has_tab', 'has_quote', 'has_space', 'e5x')])
+             [dict(c='str', s=s) for s in ('good', 'has_comma', 'has_tab', 'has_quote', 'has_space', 'e5x', 'has_newline', 'has_vt')])
     fields = ['amp', 'cluster_id', 'group']
     recs = []
     for rid in range(1, count + 1):
